@@ -1573,6 +1573,13 @@ class DataFieldRecordArray(
         # ``arr`` misses one of the data fields.
         arr_data_fields = [arr[fname] for fname in self._field_name_list]
 
+        # Make sure all the field arrays can be written to, so no data has been
+        # written in case one of them is read-only.
+        for fname in self._field_name_list:
+            if not self._data_fields[fname].flags.writeable:
+                raise ValueError(
+                    f'The data of the field "{fname}" is read-only!')
+
         for (fname, arr_data) in zip(self._field_name_list, arr_data_fields):
             self._data_fields[fname][indices] = arr_data
 
